@@ -325,7 +325,7 @@ func (f Index) Iterate(fn IndexIterFunc, options *IterateOptions) (err error) {
 		options = new(IterateOptions)
 	}
 	// construct a prefix with Index prefix and optional common key prefix
-	prefix := append(f.prefix, options.Prefix...)
+	prefix := f.withPrefix(options.Prefix)
 	// start from the prefix
 	startKey := prefix
 	if options.StartFrom != nil {
@@ -437,13 +437,13 @@ func bytesIncrement(bytes []byte) []byte {
 func (f Index) First(prefix []byte) (i Item, err error) {
 	it := f.db.backend.Search(driver.Query{Prefix: driver.Key{
 		Prefix: indexKeyPrefixLength,
-		Data:   append(f.prefix, prefix...),
+		Data:   f.withPrefix(prefix),
 	}})
 	defer func() {
 		_ = it.Close()
 	}()
 
-	totalPrefix := append(f.prefix, prefix...)
+	totalPrefix := f.withPrefix(prefix)
 
 	return f.itemFromIterator(it, totalPrefix)
 }
@@ -493,14 +493,14 @@ func (f Index) Last(prefix []byte) (i Item, err error) {
 	if l > 0 && nextPrefix != nil {
 		it.Seek(driver.Key{
 			Prefix: indexKeyPrefixLength,
-			Data:   append(f.prefix, nextPrefix...),
+			Data:   f.withPrefix(nextPrefix),
 		})
 		it.Prev()
 	} else {
 		it.Last()
 	}
 
-	totalPrefix := append(f.prefix, prefix...)
+	totalPrefix := f.withPrefix(prefix)
 	return f.itemFromIterator(it, totalPrefix)
 }
 
@@ -567,4 +567,11 @@ func (f Index) CountFrom(start Item) (count int, err error) {
 		count++
 	}
 	return count, it.Error()
+}
+
+// withPrefix returns a fresh slice holding the index prefix followed by p.
+// Appending to f.prefix directly would write into its spare capacity, which
+// every copy of the Index shares.
+func (f Index) withPrefix(p []byte) []byte {
+	return append(append(make([]byte, 0, len(f.prefix)+len(p)), f.prefix...), p...)
 }
